@@ -125,47 +125,23 @@ def check(ctx: Ctx) -> None:
     _check_falsy_zero(ctx)
 
 
-def falsy_zero_tests(fn: FuncInfo):
-    """Truthiness tests (`if p` / `if not p` / `p or default`) on parameters annotated Optional[<numeric or str>]:
-    they conflate the legal value 0 (or '') with None."""
-    a = fn.node.args
-    opt = set()
-    for p in a.posonlyargs + a.args + a.kwonlyargs:
-        if p.annotation is not None:
-            ann = norm(p.annotation)
-            if ('Optional[' in ann or 'None' in ann) and any(t in ann for t in ('int', 'float', 'str')) and 'bool' not in ann:
-                opt.add(p.arg)
-    if not opt:
-        return
-    # a parameter re-bound before the test is no longer the raw argument
-    rebound = {t.id for n in walk_no_nested(fn.node) if isinstance(n, ast.Assign) for t in n.targets if isinstance(t, ast.Name)}
-    for n in walk_no_nested(fn.node):
-        tests = []
-        if isinstance(n, (ast.If, ast.While, ast.IfExp)):
-            tests.append(n.test)
-        elif isinstance(n, ast.BoolOp):
-            tests.extend(n.values[:-1] if isinstance(n.op, ast.Or) else [])
-        for t in tests:
-            u = t
-            while isinstance(u, ast.UnaryOp) and isinstance(u.op, ast.Not):
-                u = u.operand
-            if isinstance(u, ast.Name) and u.id in opt and u.id not in rebound:
-                yield n, u.id
+from ..idioms import falsy_zero_tests  # noqa: E402
 
 
 def _check_falsy_zero(ctx: Ctx) -> None:
     M = ctx.model
-    ctx.rule('C05.f', 'Optional index/count parameters of the runner API are tested with `is None`, never by truthiness (0 is a legal value)', floor=3)
+    ctx.rule('C05.f', 'Optional index/count parameters of the runner API, and values looked up with dict.get(), are tested with `is None` / membership, never by truthiness (0 is a legal value)', floor=3)
     for path, cname in ((RUNNER, 'SimulationRunner'), (PAR, 'SimulationParameters')):
         cls = M.cls(cname)
         for fn in cls.methods.values():
             a = fn.node.args
             anns = [norm(p.annotation) for p in a.args + a.kwonlyargs if p.annotation is not None]
-            if not any('Optional[' in x and any(t in x for t in ('int', 'float', 'str')) for x in anns):
+            has_lookup = any(isinstance(n, ast.Call) and isinstance(n.func, ast.Attribute) and n.func.attr == 'get' for n in ast.walk(fn.node))
+            if not any('Optional[' in x and any(t in x for t in ('int', 'float', 'str')) for x in anns) and not has_lookup:
                 continue
             construct = fn.qualname
             ctx.instance('C05.f', construct)
-            hits = list(falsy_zero_tests(fn))
+            hits = list(falsy_zero_tests(fn, lookups=True))
             ctx.obligation('C05.f', construct, not hits, {'optional_params_tested_by_truthiness': [h[1] for h in hits]})
             for node, name in hits:
                 ctx.violation('C05.f', construct, 'parameter `%s` (Optional numeric/str) is tested by truthiness in `%s`: the legal value 0 '
